@@ -105,13 +105,14 @@ RestSame(d) == obs["A"][d].rest = obs["B"][d].rest
 Reported(d) == d \in devd /\ PrintT(<<"DEV", l - 1, d, DevClass(d)>>)
 ConvergedP == sync => \A d \in Docs : Promised(d) => ((SameView(d) /\ RestSame(d)) \/ Reported(d))
 SingleWinnerP == sync => \A p \in Peers, d \in Docs : obs[p][d].nlive <= 1
-(* a re-run of the caught-up replication: no revision is transferred (docs_written, docs_read stay 0) and nothing changes;
-   failed transfers (409) only concern documents on which convergence is not promised.  A document on which a named
-   deviation was reported is excused: the re-run, which lists everything again, may repair it (one transfer each). *)
-Unpromised == Cardinality({d \in Docs : ~Promised(d) \/ d \in devd})
-IdempotentRerunP == rr.on => /\ rr.w + rr.r <= Cardinality(devd)
-                             /\ rr.chg \subseteq devd
-                             /\ rr.f <= Unpromised
+(* a re-run of the caught-up replication transfers no revision and changes nothing - on the documents on which convergence
+   is promised.  Excused, one transfer each: a document the environment wrote on the target side of a one-directional
+   replication (the target may have changed since the source's revision was rejected; the re-run lists everything again),
+   and a document on which a named deviation was reported (the re-run may repair it).  Failed transfers (409) likewise. *)
+Excused == {d \in Docs : ~Promised(d) \/ d \in devd}
+IdempotentRerunP == rr.on => /\ rr.w + rr.r <= Cardinality(Excused)
+                             /\ rr.chg \subseteq Excused
+                             /\ rr.f <= Cardinality(Excused)
 (* bounded-time progress (DESIGN 8): the replication reached a caught-up point *)
 EventuallyCaughtUpP == caught
 
@@ -157,7 +158,7 @@ CSync == /\ Ev("Sync") /\ KeepCfg
          /\ obs' = LObsAll(Trace[l]) /\ caught' = Trace[l].ok /\ sync' = Trace[l].ok /\ rr' = NoRR /\ UNCHANGED devc
          /\ UNCHANGED <<pool, twrote, edits, stops, reruns, rerun, snap, swapped, hist>>
 CRerun == /\ Ev("Rerun") /\ Quiescent
-          /\ \A p \in Peers, d \in Docs \ devd : doc[p][d] = LView(Trace[l][p][d])     \* a repaired deviation is re-bound
+          /\ \A p \in Peers, d \in Docs \ Excused : doc[p][d] = LView(Trace[l][p][d])     \* an excused document is re-bound
           /\ doc' = LDocs(Trace[l])
           /\ rr' = [on |-> TRUE, w |-> Trace[l].w, r |-> Trace[l].r, f |-> Trace[l].f, chg |-> {}]
           /\ UNCHANGED <<revs, seq, dseq, running, cursor, ckpt, msgs, out, ghost, hist, obs, caught, devc>>
